@@ -665,9 +665,17 @@ func triggerRevived(w *World, v Violation) string {
 	}
 	c := w.Clients[v.Conn]
 	delT := -1
-	for _, ev := range c.Ref.Events {
-		if ev.RID == v.RID && ev.Event == "delete" && ev.T < v.T {
-			delT = ev.T
+	name, _ := w.expandRID(c, v.RID)
+	for _, e := range w.Log() {
+		if e.Kind == "mq_ev" && e.Subject == "event."+name+".delete" && e.T < v.T {
+			delT = e.T
+			break
+		}
+		// a delete derived from a system.notFound answer to a re-fetch or query request
+		if e.Kind == "mq_complete" && e.T < v.T && (e.Subject == "get."+name || (strings.HasPrefix(e.Subject, "_EVQ.") && w.qevSubjects[e.Subject] == name)) &&
+			(strings.Contains(string(e.Payload), `"system.notFound"`) || strings.Contains(e.Err, "Not found")) {
+			delT = e.T
+			break
 		}
 	}
 	if delT < 0 {
@@ -680,4 +688,30 @@ func triggerRevived(w *World, v Violation) string {
 		}
 	}
 	return ""
+}
+
+// ---------------------------------------------------------------------------
+// C12 (simulator part): system reset
+
+func init() {
+	register(&SimProp{
+		ID: "C12",
+		Profiles: []*Profile{
+			{Name: "c12-reset", MinOps: 8, MaxOps: 45, MaxConns: 3, Versions: []string{"1.2.3", "1.1.1"}, Protocol: true, Prologue: 90,
+				W: weightsWith(map[string]int{"badreq": 0, "burst": 0, "auth": 0, "call": 0, "new": 0, "mutate": 4, "custom": 1, "silent": 14, "sysreset": 22, "qmutate": 8, "qevent": 3,
+					"delete": 1, "reaccess": 1, "token": 0, "httpget": 1, "httppost": 0, "subscribe": 10, "get": 2, "unsubscribe": 4, "close": 1, "connect": 2}),
+				AccessOut: map[string]int{"grant": 14, "deny": 2, "timeout": 1},
+				GetOut:    map[string]int{"ok": 16, "notfound": 3, "err": 2, "timeout": 1},
+				Patterns:  []string{">", "t.>", "t.*", "*.a", "*.*", "t.a", "t.b", "t.q", "t.c", "x.>", "t..a", "*", "t.a.>", "t.*.>", "", "t.?", "t.a*", " ", "t.>.a", "*.b"},
+			},
+		},
+		Config: func(t *rapid.T, p *Profile) WorldConfig {
+			cfg := graphConfig(t, p)
+			cfg.ResetThrottle = 0
+			cfg.ReferenceThrottle = 0
+			return cfg
+		},
+		Monitors: func() []Monitor { return []Monitor{NewMonC12(), NewMonC01()} },
+		Trigger:  triggerData,
+	})
 }
